@@ -750,6 +750,15 @@ Definition k_stream (k : case) : stream :=
                 let x : name := nth (N.to_nat i) (k_syms k) (@nil N) in
                 (tid, if b then Ent x t else Ext x t)) (k_recs k).
 Definition k_tids (k : case) : list N := map fst (k_tasks k).
+(* scheduler events are calls of pseudo functions: the graphs tell 'linux:schedule (pre-empted)' from
+   'linux:schedule' (utils/graph.c add_graph_event); dump --chrome names both 'linux:schedule' (the sched-in event
+   that closes them cannot know) *)
+Definition s_sched : name := [108; 105; 110; 117; 120; 58; 115; 99; 104; 101; 100; 117; 108; 101].
+Definition s_sched_pre : name := s_sched ++ [32; 40; 112; 114; 101; 45; 101; 109; 112; 116; 101; 100; 41].
+Definition chrome_name (x : name) : name := if name_eqb x s_sched_pre then s_sched else x.
+Definition chrome_stream (s : stream) : stream :=
+  map (fun r => (fst r, match snd r with Ent x t => Ent (chrome_name x) t | Ext x t => Ext (chrome_name x) t end)) s.
+Definition k_cstream (k : case) : stream := chrome_stream (k_stream k).
 
 Definition grow_eqb (a b : grow) : bool :=
   let '(d, x, c, t) := a in let '(d', x', c', t') := b in
@@ -792,7 +801,7 @@ Definition chrome_args (k : case) : list (option (list N)) :=
          let '((_, b, _, _), a) := ra in option_map (fun l => unescape (args_text b l)) a) (combine (k_recs k) (k_args k))
   ++ repeat None (length (k_chrome k) - length (k_recs k)).
 Definition agree_chrome (k : case) : bool :=
-  cevs_eqb (chrome_events (k_tasks k) (k_stream k)) (k_chrome k)
+  cevs_eqb (chrome_events (k_tasks k) (k_cstream k)) (k_chrome k)
   && opts_eqb (chrome_args k) (k_chrome_args k).
 
 (* the property, judged on what the implementation printed (reference aggregation only) *)
@@ -801,7 +810,7 @@ Definition okc_flame0 (k : case) : bool := ok_flame 0 (k_tids k) (k_stream k) (k
 Definition okc_flameS (k : case) : bool := ok_flame (k_sample k) (k_tids k) (k_stream k) (k_flameS k).
 Definition okc_dot (k : case) : bool := ok_dot (k_root k) (k_stream k) (k_dot k).
 Definition okc_mermaid (k : case) : bool := ok_mermaid (k_root k) (k_stream k) (k_mermaid k).
-Definition okc_chrome (k : case) : bool := k_json_ok k && ok_chrome (k_tasks k) (k_stream k) (k_chrome k).
+Definition okc_chrome (k : case) : bool := k_json_ok k && ok_chrome (k_tasks k) (k_cstream k) (k_chrome k).
 Definition wf_case (k : case) : bool := wf_stream (k_stream k).
 Definition fits_flame0 (k : case) : bool := flame_all_fit 0 (k_tids k) (k_stream k).
 Definition fits_flameS (k : case) : bool := flame_all_fit (k_sample k) (k_tids k) (k_stream k).
